@@ -29,6 +29,8 @@ def cases(tier, seed):
         yield {"fam": "rand", "i": i}
     for i in range(16 if tier == "quick" else 160):
         yield {"fam": "special", "i": i}
+    for i in range(16 if tier == "quick" else 160):
+        yield {"fam": "counts", "i": i}
 
 
 def setup(ctx):
@@ -95,9 +97,57 @@ def special(ctx, i):
     ctx.nontrivial("special", i)
 
 
+def counts(ctx, i):
+    """instance counts in the windows where products / sums of label numbers cross 2^8 and 2^16 (n x (n+1) around 256,
+    n around 256): which component gets the highest number depends on the scan order, i.e. on flips"""
+    n_ref = int([16, 17, 15, 23, 256, 255, 257, 12][i % 8])
+    n_pred = n_ref - 1 if i % 3 else n_ref
+    w = 3 * n_ref + 2
+    refa = np.zeros((2, w), dtype=np.uint8)
+    pred = np.zeros((2, w), dtype=np.uint8)
+    for k in range(n_ref):
+        refa[:, 3 * k : 3 * k + 2] = 1
+    off = n_ref - n_pred  # the prediction lacks the first component(s): prediction k lies on reference k + off
+    for k in range(n_pred):
+        pred[0, 3 * (k + off) : 3 * (k + off) + 2] = 1
+    it = ["SEMANTIC", "UNMATCHED_INSTANCE"][(i // 8) % 2]
+    if it == "UNMATCHED_INSTANCE":
+        lab = np.zeros_like(refa, dtype=np.uint16)
+        for k in range(n_ref):
+            lab[:, 3 * k : 3 * k + 2] = k + 1
+        refa = lab
+        lab = np.zeros_like(pred, dtype=np.uint16)
+        for k in range(n_pred):
+            lab[0, 3 * (k + off) : 3 * (k + off) + 2] = k + 1
+        pred = lab
+    cfg = {"input": it, "backend": [None, "cc3d", "scipy"][i % 3], "matcher": {"kind": "naive", "metric": "IOU", "thr": 0.4, "m2o": False}, "metrics": ["DSC", "IOU"], "global": ["DSC"]}
+    base = meta.run(cfg, pred, refa)
+    ctx.count("evaluations")
+    keys = ["num_ref_instances", "num_pred_instances", "tp", "fp", "fn", "rq", "sq", "sq_dsc", "pq", "global_bin_dsc"]
+    trans = [("flip_axis1", lambda a: a[:, ::-1]), ("flip_both_copy", lambda a: np.ascontiguousarray(a[::-1, ::-1])), ("transpose", lambda a: np.ascontiguousarray(a.T)), ("pad", lambda a: np.pad(a, [(1, 0), (2, 3)]))]
+    for name, fn in trans:
+        t = meta.run(cfg, fn(pred), fn(refa))
+        ctx.count("evaluations")
+        ctx.count("C10.judged")
+        ctx.count("f:C10.count_windows")
+        d = meta.diff(base, t, metrics=["DSC", "IOU"], keys=keys)
+        if d is not None:
+            ctx.viol("result_changed_by_transformation", {"case": "count_window", "n_ref": n_ref, "n_pred": n_pred, "transformation": name, "key": d, "cfg": cfg,
+                                                          "base": {k: base.get(k) for k in keys} if "ERR" not in base else base, "transformed": {k: t.get(k) for k in keys} if "ERR" not in t else t},
+                     features={"input": it, "transformation": name.split("_")[0], "key": d.split(":")[0], "count_window": True})
+            return
+    if "ERR" not in base and base["tp"] != n_pred:
+        ctx.viol("result_changed_by_transformation", {"case": "count_window", "n_ref": n_ref, "n_pred": n_pred, "note": "every prediction lies on one reference: tp must equal the number of predictions in every orientation", "tp": base["tp"]},
+                 features={"input": it, "transformation": "none", "key": "tp", "count_window": True})
+        return
+    ctx.nontrivial("counts", i)
+
+
 def run(case, ctx):
     if case.get("fam") == "special":
         return special(ctx, case["i"])
+    if case.get("fam") == "counts":
+        return counts(ctx, case["i"])
     i = case["i"]
     r = gen.rng(ctx.seed, "c10", i)
     it = ["UNMATCHED_INSTANCE", "SEMANTIC", "MATCHED_INSTANCE"][i % 3]
